@@ -139,6 +139,13 @@ def extra_names(rnd, n):
     for x in range(1, 256):
         out += [bytes([x]), b"a" + bytes([x]), bytes([x]) + b"a", b"a" + bytes([x]) + b"a", b"ab_" + bytes([x]),
                 b"ab+c" + bytes([x])]
+    # structured near-misses of valid names of several lengths
+    for ln in (2, 3, 5, 20, 38, 39, 40):
+        v = rand_valid_name(rnd, ln).replace(b"-", b"x")
+        mid = len(v) // 2
+        out += [v[:mid] + b"--" + v[mid:], v[:mid] + b"-" + v[mid:], b"-" + v, v + b"-", v.upper(), v[:mid] + b"A" + v[mid:],
+                bytes(rnd.choice(DIG) for _ in v), v + b"_", v + b"__k", v + b"_k_k", v + b"_-", v + b"+", b"+" + v,
+                v + b"+" + v + b"+" + v, v + b"+-" + v, v + b"+" + v[:mid] + b"--" + v[mid:] + b"x", v + b"_k+" + v]
     lens = [2, 3, 10, 39, 40, 41, 42, 50, 51, 52, 53, 60, 80, 81, 82, 100]
     klens = [0, 1, 2, 9, 10, 11, 12]
     while len(out) < n:
